@@ -24,6 +24,16 @@ fn sessions(tier: Tier, seed: u64) -> Vec<Session> {
     } else {
         vec![("A", "A", "s0"), ("alice", "password123", "s1"), ("0123456789abcdef", "x", "s2")]
     };
+    sessions_of(specs, seed)
+}
+
+/// Accounts whose NAME has a shape a shortcut in hashing or normalising the name would get wrong (the reconnect proof
+/// hashes the name): blanks at either end, runs of blanks, characters bordering the letter ranges, one character.
+fn odd_name_sessions(seed: u64) -> Vec<Session> {
+    sessions_of(vec![("bob ", "pw", "n0"), (" lead", "pw", "n1"), ("a  b", "pw", "n2"), ("pass|zone", "pw", "n3"), ("@a[z`{~", "pw", "n4"), ("z", "pw", "n5"), ("0123456789abcde", "pw", "n6"), ("  ", "pw", "n7")], seed)
+}
+
+fn sessions_of(specs: Vec<(&str, &str, &str)>, seed: u64) -> Vec<Session> {
     specs
         .into_iter()
         .map(|(u, p, tag)| {
@@ -274,6 +284,20 @@ pub fn run(tier: Tier, seed: u64) -> i32 {
         report.require("long_history_attempts");
         report.space(&format!("three fixed histories of {n} attempts (one server; three servers of different accounts round-robin; two clones of one server) mixing honest, wrong, replayed (1/16/255/256/4096 acceptances back) and foreign pairs"));
     }
+    // accounts with oddly shaped names: every history of length 3 with at most one deviation
+    for s in odd_name_sessions(seed) {
+        let (st, _outcomes, viols) = explore(Some(1), 3, |ch| history(&s, seed, 3, ch));
+        report.count("odd_name_session_executions", st.executions);
+        for (choices, msg) in viols {
+            report.violation(Violation {
+                signature: format!("C05|odd-name|{}", if msg.contains("server returned true") { "accepted-wrong-proof" } else if msg.contains("server returned false") { "rejected-right-proof" } else if msg.contains("client's reconnect proof") { "client-values" } else if msg.contains("not replaced") { "challenge-not-refreshed" } else { "other" }),
+                scenario: "reconnect-history".into(),
+                replay: json!({"seed": seed, "session": s.name, "history_length": 3, "deviation_bound": 1, "choices": choices, "session_key": hex(&s.k), "username": String::from_utf8_lossy(&s.user_norm)}),
+                detail: json!({ "message": msg }),
+            });
+        }
+    }
+    report.require("odd_name_session_executions");
     // (length, deviation bound) plans
     let plans: Vec<(usize, usize)> = if tier == Tier::Thorough { vec![(8, 2), (4, 3), (12, 1)] } else { vec![(6, 2), (10, 1)] };
     let mut total_exec = 0u64;
@@ -379,7 +403,8 @@ pub fn run(tier: Tier, seed: u64) -> i32 {
 pub fn replay(r: &serde_json::Value) -> Result<String, String> {
     let seed = r["seed"].as_u64().unwrap_or(0);
     let name = r["session"].as_str().unwrap_or("s0");
-    let ss = sessions(Tier::Thorough, seed);
+    let mut ss = sessions(Tier::Thorough, seed);
+    ss.extend(odd_name_sessions(seed));
     let s = ss.iter().find(|s| s.name == name).unwrap_or_else(|| mc::util::machinery_error("C05 replay: unknown session"));
     let choices: Vec<u32> = r["choices"].as_array().map(|a| a.iter().map(|c| c.as_u64().unwrap() as u32).collect()).unwrap_or_default();
     history(s, seed, r["history_length"].as_u64().unwrap_or(6) as usize, &mut Chooser::replay(&choices))
